@@ -17,8 +17,8 @@ Print Assumptions C10_decode_encode_any_chunking.
 
 (* (1') one frame followed by ANY bytes: the decoder returns that frame and stops exactly at its end *)
 Theorem C10_decode_one_frame_exact :
-  forall (f : frame) (tail : list byte) (c : list nat) (e : N), wf_frame MaxFrameSize f ->
-  exists al r', decode_frame MaxFrameSize {| rest := frame_bytes MaxFrameSize f ++ tail; cuts := c; endk := e |}
+  forall (f : frame) (tail : list byte) (c : list nat) (e : N) (k : bool), wf_frame MaxFrameSize f ->
+  exists al r', decode_frame MaxFrameSize {| rest := frame_bytes MaxFrameSize f ++ tail; cuts := c; endk := e; carry := k |}
                 = (DOk f, al, r') /\ rest r' = tail.
 Proof. exact (decode_frame_encode MaxFrameSize max_frame_fits_u32). Qed.
 Print Assumptions C10_decode_one_frame_exact.
